@@ -215,22 +215,54 @@ var rrPick, prefixMatch = route.Picker["rr"], route.Matcher["prefix"]
 // ---------- redirect templates: the URL as written in the route and the pieces of the Location ----------
 type tmplT struct {
 	url    string
-	pieces []string // "" = the $path hole
+	pieces []string // hole = the $path hole, slash = the "/" the route has in front of it
+}
+
+const hole, slash, hhole = "<HOLE>", "<SLASH>", "<HOSTHOLE>"
+
+// rq is one request: URL path and Host header.
+type rq struct{ path, host string }
+
+// own is the Location the request with this path and Host must get.
+func (t tmplT) own(path, host string) string {
+	s := ""
+	for i, pc := range t.pieces {
+		switch {
+		case pc == hhole:
+			s += host
+		case pc == hole:
+			s += path
+		case pc == slash && i+1 < len(t.pieces) && t.pieces[i+1] == hole:
+		case pc == slash:
+			s += "/"
+		default:
+			s += pc
+		}
+	}
+	return s
 }
 
 var tmpls = []tmplT{
-	{"http://new.example/$path", []string{"http://new.example", ""}},
-	{"http://new.example/base/$path", []string{"http://new.example/base", ""}},
-	{"https://new.example$path", []string{"https://new.example", ""}},
+	{"http://new.example/$path", []string{"http://new.example", slash, hole}},
+	{"http://new.example/base/$path", []string{"http://new.example/base", slash, hole}},
+	{"https://new.example$path", []string{"https://new.example", hole}},
 	{"http://new.example/fixed", []string{"http://new.example/fixed"}},
 	{"http://new.example/", []string{"http://new.example/"}},
+	{"https://$host/welcome", []string{"https://", hhole, "/welcome"}},
+	{"https://$host/", []string{"https://", hhole, "/"}},
+	{"https://$host/$path", []string{"https://", hhole, slash, hole}},
+	{"http://$host.mirror.example/m/$path", []string{"http://", hhole, ".mirror.example/m", slash, hole}},
 }
 
 func (t tmplT) coq() string {
 	items := make([]string, len(t.pieces))
 	for i, p := range t.pieces {
-		if p == "" {
+		if p == hole {
 			items[i] = "Hole"
+		} else if p == slash {
+			items[i] = "Slash"
+		} else if p == hhole {
+			items[i] = "HHole"
 		} else {
 			items[i] = "(Lit " + vh.HxS(p) + ")"
 		}
@@ -271,10 +303,47 @@ type ev struct {
 
 // runForced replays the coarse schedule evs (lookup / rest-of-ServeHTTP per thread) on a fresh
 // table with one redirect route and returns every client's Location (outcome term).
-func runForced(t tmplT, paths []string, evs []ev) (impl []string, human []string) {
+func rqList(reqs []rq) string {
+	items := make([]string, len(reqs))
+	for i, q := range reqs {
+		items[i] = vh.Pair(vh.HxS(q.path), vh.HxS(q.host))
+	}
+	return vh.List(items)
+}
+
+func rqHuman(reqs []rq) []string {
+	out := make([]string, len(reqs))
+	for i, q := range reqs {
+		out[i] = q.host + q.path
+	}
+	return out
+}
+
+// runSerialLookup keeps ONE table across a serial history of requests and reads, after every
+// Table.Lookup, the redirect URL the returned target carries (what ServeHTTP would send).
+func runSerialLookup(t tmplT, reqs []rq) (impl []string, human []string) {
 	tbl := mustTable(`route add rsvc / ` + t.url + ` opts "redirect=302"`)
 	gc := route.NewGlobCache(8)
-	n := len(paths)
+	for _, q := range reqs {
+		var tg *route.Target
+		pv, _ := guarded(func() { tg = tbl.Lookup(newReq(q.host, q.path, "10.0.0.1:1000"), "", rrPick, prefixMatch, gc, false) })
+		switch {
+		case pv != nil:
+			impl, human = append(impl, vh.Panic), append(human, fmt.Sprint("panic: ", pv))
+		case tg != nil && tg.RedirectCode != 0 && tg.RedirectURL != nil:
+			loc := tg.RedirectURL.String()
+			impl, human = append(impl, vh.Ok(vh.HxS(loc))), append(human, loc)
+		default:
+			impl, human = append(impl, vh.Err(0)), append(human, "no redirect target")
+		}
+	}
+	return
+}
+
+func runForced(t tmplT, reqs []rq, evs []ev) (impl []string, human []string) {
+	tbl := mustTable(`route add rsvc / ` + t.url + ` opts "redirect=302"`)
+	gc := route.NewGlobCache(8)
+	n := len(reqs)
 	start := make([]chan struct{}, n)
 	cont := make([]chan struct{}, n)
 	done := make([]chan struct{}, n)
@@ -294,7 +363,7 @@ func runForced(t tmplT, paths []string, evs []ev) (impl []string, human []string
 	panics := make([]interface{}, n)
 	for i := 0; i < n; i++ {
 		recs[i] = httptest.NewRecorder()
-		req := newReq("old.example", paths[i], "10.0.0.1:1000")
+		req := newReq(reqs[i].host, reqs[i].path, "10.0.0.1:1000")
 		req.Header.Set("X-Verif-Who", strconv.Itoa(i))
 		go func(i int, req *http.Request) {
 			panics[i], _ = guarded(func() { p.ServeHTTP(recs[i], req) })
@@ -328,41 +397,82 @@ func runForced(t tmplT, paths []string, evs []ev) (impl []string, human []string
 
 func forcedCases(run *vh.Run) {
 	r := run.Rng
-	emit := func(class string, t tmplT, paths []string, evs []ev) {
-		impl, human := runForced(t, paths, evs)
-		var fine []int
-		var hs []string
+	fineOf := func(evs []ev) (fine []int, hs []string) {
 		for _, e := range evs {
 			if e.lookup {
-				fine = append(fine, e.th, e.th)
+				fine = append(fine, e.th, e.th, e.th, e.th)
 				hs = append(hs, fmt.Sprintf("L%d", e.th))
 			} else {
 				fine = append(fine, e.th)
 				hs = append(hs, fmt.Sprintf("R%d", e.th))
 			}
 		}
-		run.Add(class, vh.App("CRedir", t.coq(), strList(paths), natList(fine), vh.List(impl)),
-			map[string]interface{}{"template": t.url, "paths": paths, "schedule": strings.Join(hs, " "), "locations": human})
+		return
+	}
+	emit := func(class string, t tmplT, reqs []rq, evs []ev) {
+		impl, human := runForced(t, reqs, evs)
+		fine, hs := fineOf(evs)
+		run.Add(class, vh.App("CRedir", t.coq(), rqList(reqs), natList(fine), vh.List(impl)),
+			map[string]interface{}{"template": t.url, "requests": rqHuman(reqs), "schedule": strings.Join(hs, " "), "locations": human})
 	}
 	L, R := func(i int) ev { return ev{i, true} }, func(i int) ev { return ev{i, false} }
+	serialEvs := func(n int) []ev {
+		var evs []ev
+		for i := 0; i < n; i++ {
+			evs = append(evs, L(i), R(i))
+		}
+		return evs
+	}
+	A, B := rq{"/from-A", "old.example"}, rq{"/from-B", "old.example"}
+	A2, B2 := rq{"/from-A", "a.example.com"}, rq{"/from-B", "b.example.org"}
 	for _, t := range tmpls {
 		// the witness schedule of redirect_cross_talk_refuted: A looks up, B looks up, A continues
-		emit("redirect-forced-witness", t, []string{"/from-A", "/from-B"}, []ev{L(0), L(1), R(0), R(1)})
-		emit("redirect-forced-witness", t, []string{"/from-A", "/from-B"}, []ev{L(1), L(0), R(0), R(1)})
+		emit("redirect-forced-witness", t, []rq{A, B}, []ev{L(0), L(1), R(0), R(1)})
+		emit("redirect-forced-witness", t, []rq{A, B}, []ev{L(1), L(0), R(0), R(1)})
+		emit("redirect-forced-witness", t, []rq{A2, B2}, []ev{L(0), L(1), R(0), R(1)})
 		// serial
-		emit("redirect-forced-serial", t, []string{"/from-A", "/from-B"}, []ev{L(0), R(0), L(1), R(1)})
-		emit("redirect-forced-serial", t, []string{"/only"}, []ev{L(0), R(0)})
-		// same path twice: no observable cross-talk
-		emit("redirect-forced-samepath", t, []string{"/same", "/same"}, []ev{L(0), L(1), R(0), R(1)})
+		emit("redirect-forced-serial", t, []rq{A, B}, serialEvs(2))
+		emit("redirect-forced-serial", t, []rq{{"/only", "old.example"}}, serialEvs(1))
+		// same request twice: no observable cross-talk
+		emit("redirect-forced-samepath", t, []rq{{"/same", "old.example"}, {"/same", "old.example"}}, []ev{L(0), L(1), R(0), R(1)})
+	}
+	hostPool := []string{"a.example.com", "b.example.org", "A.Example.COM", "c.test:8080", "old.example", "xn--e1afmkfd.example"}
+	randReq := func(k int) rq { return rq{randPath(r, fmt.Sprintf("t%d", k)), hostPool[r.Intn(len(hostPool))]} }
+	// ONE table kept across a serial history of 3-8 requests with varying hosts and paths, through the
+	// real ServeHTTP and through Table.Lookup alone: every answer must be the one the same request
+	// gets on a fresh table (no cross-request effect even without concurrency)
+	for _, t := range tmpls {
+		for rep := 0; rep < run.Scale(3, 40); rep++ {
+			n := 3 + r.Intn(6)
+			reqs := make([]rq, n)
+			for k := range reqs {
+				reqs[k] = randReq(k)
+				if k > 0 && r.Intn(5) == 0 {
+					reqs[k].path = reqs[k-1].path // same path, other host
+				}
+				if k > 0 && r.Intn(5) == 0 {
+					reqs[k].host = reqs[k-1].host // same host, other path
+				}
+			}
+			evs := serialEvs(n)
+			fine, hs := fineOf(evs)
+			if rep%2 == 0 {
+				emit("redirect-serial-history-servehttp", t, reqs, evs)
+			} else {
+				impl, human := runSerialLookup(t, reqs)
+				run.Add("redirect-serial-history-lookup", vh.App("CRedir", t.coq(), rqList(reqs), natList(fine), vh.List(impl)),
+					map[string]interface{}{"template": t.url, "requests": rqHuman(reqs), "schedule": strings.Join(hs, " "), "locations": human})
+			}
+		}
 	}
 	for i := 0; i < run.Scale(60, 1500); i++ {
 		t := tmpls[r.Intn(len(tmpls))]
 		n := 2 + r.Intn(3)
-		paths := make([]string, n)
-		for k := range paths {
-			paths[k] = randPath(r, fmt.Sprintf("t%d", k))
+		reqs := make([]rq, n)
+		for k := range reqs {
+			reqs[k] = randReq(k)
 			if k > 0 && r.Intn(6) == 0 {
-				paths[k] = paths[0]
+				reqs[k] = reqs[0]
 			}
 		}
 		// a random interleaving in which every thread's lookup precedes its continuation
@@ -375,7 +485,7 @@ func forcedCases(run *vh.Run) {
 				state[k]++
 			}
 		}
-		emit("redirect-forced-random", t, paths, evs)
+		emit("redirect-forced-random", t, reqs, evs)
 	}
 }
 
@@ -438,7 +548,7 @@ func globSeqCases(run *vh.Run) {
 		globSeq(run, "glob-seq-directed", size, append(append([]string{}, calls...), calls[0], calls[len(calls)-1], calls[1]))
 		globSeq(run, "glob-seq-directed", size, []string{"a*", "a*", "[", "a*", "[", "{a"})
 	}
-	for i := 0; i < run.Scale(150, 4000); i++ {
+	for i := 0; i < run.Scale(110, 4000); i++ {
 		size := 1 + r.Intn(6)
 		pool := 1 + r.Intn(len(goodPats))
 		n := 3 + r.Intn(40)
@@ -460,7 +570,7 @@ func globConcCases(run *vh.Run) {
 	type key struct{ size, threads, n, keys, panics, wrong int }
 	seen := map[key]int{}
 	var order []key
-	rounds := run.Scale(1500, 40000)
+	rounds := run.Scale(1000, 40000)
 	for i := 0; i < rounds; i++ {
 		size := []int{1, 2, 3, 4}[r.Intn(4)]
 		threads := 1
@@ -595,10 +705,13 @@ func rrCases(run *vh.Run) {
 				tbl := mustTable(rt.text)
 				ro := rrRoute(tbl)
 				ring := ro.VerifC06Ring()
+				if len(ring) > 100 && !run.Thorough() && (rep > 0 || G == 2 || G == 8) {
+					continue // a 10000-slot ring is a big term: few of them in the quick tier
+				}
 				cycles := 3 + r.Intn(3)
 				total := cycles * len(ring)
 				if len(ring) > 100 {
-					total = 2 * len(ring)
+					total = len(ring)
 				}
 				total = (total + G - 1) / G * G
 				per := total / G
@@ -764,7 +877,7 @@ func lookupCases(run *vh.Run) {
 					human = "a target outside the candidate hosts"
 				}
 			}
-			run.Add("lookup-seq", vh.App("CLookup", vh.List(hostTerms), vh.HxS(path), vh.N64(cursor), impl),
+			run.Add("lookup-seq", vh.App("CLookup", vh.List(hostTerms), vh.HxS(path), vh.HxS(reqHost), vh.N64(cursor), impl),
 				map[string]interface{}{"table": lines, "host": reqHost, "path": path, "cursor": cursor, "answer": human})
 		}
 	}
@@ -856,7 +969,7 @@ func stress(run *vh.Run) {
 	p := &proxy.HTTPProxy{Config: config.Proxy{}, Transport: stubRT{}, Lookup: func(req *http.Request) *route.Target {
 		return route.GetTable().Lookup(req, "", rrPick, prefixMatch, gc, false)
 	}}
-	dur := time.Duration(run.Scale(4, 60)) * time.Second
+	dur := time.Duration(run.Scale(3, 60)) * time.Second
 	stop := make(chan struct{})
 	var wg sync.WaitGroup
 	var swaps int64
@@ -933,7 +1046,7 @@ func stress(run *vh.Run) {
 	wg.Wait()
 	route.SetTable(mustTable(""))
 
-	// redirect answers become cases (own, foreign, or unfilled Location): at most 40 own + 120 foreign
+	// redirect answers become cases (own, foreign, or unfilled Location): at most 25 own + 60 foreign
 	keys := make([]string, 0, len(redirKey))
 	for k := range redirKey {
 		keys = append(keys, k)
@@ -943,19 +1056,12 @@ func stress(run *vh.Run) {
 	for _, k := range keys {
 		m := redirKey[k]
 		t := used[m.q.redirect]
-		own := ""
-		for _, pc := range t.pieces {
-			if pc == "" {
-				own += m.q.path
-			} else {
-				own += pc
-			}
-		}
+		own := t.own(m.q.path, m.q.host)
 		isOwn := m.got.location == own
 		if !isOwn {
 			foreignTotal += redirSeen[k]
 		}
-		if (isOwn && nOwn >= 40) || (!isOwn && nForeign >= 120) {
+		if (isOwn && nOwn >= 25) || (!isOwn && nForeign >= 60) {
 			continue
 		}
 		if isOwn {
@@ -1017,5 +1123,5 @@ func main() {
 	globConcCases(run)
 	stress(run)
 	raceReports(run)
-	run.Finish(preamble, run.Scale(40, 200))
+	run.Finish(preamble, run.Scale(38, 200))
 }
